@@ -45,6 +45,22 @@ func (m *Message) valueSize() uint16 {
 	}
 }
 
+// size returns the value size of a message without truncating it to the width of the length field
+func (m *Message) size() uint64 {
+	if m.DataType.length() == 0 && m.DataType != None {
+		switch v := m.Value.(type) {
+		case string:
+			return uint64(len(v))
+		case []byte:
+			return uint64(len(v))
+		case []Message:
+			return messagesWideSize(v)
+		}
+		return 0
+	}
+	return uint64(m.DataType.length())
+}
+
 // validateResponse checks the integrity of the response
 //
 // must contain a valid tag and data type and the data type must match the value
@@ -62,7 +78,7 @@ func (m *Message) validate() error {
 	if !m.DataType.isValidValue(m.Value) {
 		return fmt.Errorf("expected %T got %T : %w", m.DataType.newEmpty(0), m.Value, ErrDataTypeValueMismatch)
 	}
-	if m.valueSize() > RSCP_DATA_MAX_DATA_SIZE {
+	if m.size() > uint64(RSCP_DATA_MAX_DATA_SIZE) {
 		return ErrRscpDataLimitExceeded
 	}
 	if m.DataType == Container {
